@@ -261,6 +261,44 @@ def fam_cancel(seed, maxk, policies=("eager", "lazy", "slowsrv", "slowcli"), dir
     return out
 
 
+def fam_inflight(seed, dirs=("fwd", "rev"), fcs=("fc", "nofc")):
+    """frames still in flight when the RPC ends on the receiving side while its handler (or caller) has not
+    returned yet: request data queued in the carrier when the deadline passes on both ends, or when the caller
+    cancels / the handler returns early; delivered afterwards, before the application makes its next move.
+    Explicit steps (no policy): the interesting order is fixed."""
+    out = []
+    for cname, cfg in cfgs(dirs, fcs):
+        for shape in ("bidi", "cstream"):
+            for ending in ("deadline", "server-deadline", "cancel", "early-return"):
+                for nmsg in (1, 3):
+                    steps = copy.deepcopy(PREFIX)
+                    new = cop(1, "new", shape=shape)
+                    if ending == "deadline":
+                        new["timeout"] = 5000
+                    if ending == "server-deadline":
+                        # the request carries its own grpc-timeout header: only the handler's context has the deadline
+                        new["md"] = {"grpc-timeout": ["5S"], "k1": ["v"]}
+                    steps += [new, dl("c2s")]                                   # the handler is invoked and idle
+                    steps += [cop(9, "new", shape="bidi"), dl("c2s")]           # a bystander
+                    steps += [cop(1, "send", n=40 + k) for k in range(nmsg)]    # queued in the carrier
+                    if ending in ("deadline", "server-deadline"):
+                        steps += [{"do": "advance", "ms": 5001}]
+                    elif ending == "cancel":
+                        steps += [{"do": "cancel", "rpc": 1}, dl("c2s", 0)]
+                    else:
+                        steps += [sop(1, "ret", code=0), {"do": "drain"}]
+                    steps += [dl("c2s") for _ in range(nmsg + 2)]               # data (and cancel) frames arrive now
+                    if ending != "early-return":
+                        steps += [sop(1, "recv"), sop(1, "ret", code=0)]
+                    steps += [{"do": "drain"}, cop(1, "recv", act="a"), cop(9, "send", n=7), dl("c2s"), sop(9, "recv"), sop(9, "send", n=8),
+                              sop(9, "ret", code=0), {"do": "drain"}, cop(9, "recv", act="a"), cop(9, "recv", act="a")]
+                    rpcs = [{"rpc": 1}, {"rpc": 9}]
+                    out.append({"name": "inflight-%s-%s-%s-%d" % (cname, shape, ending, nmsg), "cfg": dict(cfg), "steps": steps, "rpcs": rpcs,
+                                "policy": {"kind": "eager", "seed": seed, "max": 0},
+                                "meta": {"family": "inflight", "done": []}})
+    return out
+
+
 def fam_indep(seed, maxk, dirs=("fwd", "rev"), policies=("eager", "lazy", "random")):
     """bystander RPCs + one disturber of each kind, every relative timing (the
     disturber is started after k steps of the bystanders' schedule)"""
@@ -920,6 +958,11 @@ def fam_flow(seed, n, dirs=("fwd", "rev"), caps=(0, 0, 1, 2)):
             rpcs.append({"rpc": 9, "c": {"m": [op("new", shape="bidi"), op("send", n=3)]},
                          "s": {"m": [op("recv")] + [op("send", n=payload_for_wire(CH)) for _ in range(7)] + [op("ret", code=0)]}})
         pol = {"kind": rng.choice(["random", "random", "lazy", "slowsrv", "slowcli"]), "seed": rng.randrange(1 << 30), "max": 6000}
+        if kind != "paced" and i % 3 == 0:
+            # the RPC whose sender is blocked on the exhausted window is cancelled by its caller (at some point,
+            # mostly while it is blocked): the blocked sender is released, nothing else is disturbed
+            kind += "-cancel"
+            pol["faults"] = [{"at": rng.choice([15, 30, 60, 100, 150]), "step": {"do": "cancel", "rpc": 9}}]
         out.append(scenario("flow-%s-%s-cap%d-%d" % (kind, d, cap, i), cfg, rpcs, pol, meta={"family": "flow", "done": done}))
     return out
 
